@@ -268,10 +268,31 @@ def splice_module(modname, src, contracts, registry):
         order[0] += 1
         ins.append((pos, order[0], '\x01' + text + '\x02'))
 
+    lost = []
     for c in contracts:
         rel = c.name.split('::', 1)[1]
         if rel not in fns:
-            raise LostAnchor('function %s not found in extracted module %s' % (c.name, modname))
+            lost.append((c, 'function %s not found in extracted module %s' % (c.name, modname)))
+            continue
+        mark = len(ins)
+        try:
+            _splice_one(c, rel, fns, src, msk, add, registry)
+        except LostAnchor as e:
+            # proof text could not be placed: keep the contract, leave the body unverified (reported as UNDECIDED
+            # for the properties of this function only)
+            del ins[mark:]
+            lost.append((c, str(e)))
+            c.assumed = 'LOST ANCHOR: %s' % e
+            c.lost = True
+            _splice_one(c, rel, fns, src, msk, add, registry)
+    out = src
+    for pos, _, text in sorted(ins, key=lambda t: (t[0], t[1]), reverse=True):
+        out = out[:pos] + text + out[pos:]
+    return out, lost
+
+
+def _splice_one(c, rel, fns, src, msk, add, registry):
+    if True:
         kw, bo, bc = fns[rel]
         # attributes
         line_start = src.rfind('\n', 0, kw) + 1
@@ -321,7 +342,7 @@ def splice_module(modname, src, contracts, registry):
         if spec:
             add(bo, ''.join(spec) + '\n/*#END*/ ')
         if c.assumed:
-            continue  # body is not verified: no loop/anchor splicing
+            return  # body is not verified: no loop/anchor splicing
         loops = find_loops(msk, bo, bc)
         for k, lp in c.loops.items():
             if k >= len(loops):
@@ -410,10 +431,6 @@ def splice_module(modname, src, contracts, registry):
                     raise LostAnchor('%s: anchor text %r occurs %d times' % (c.name, needle, cnt))
                 p = bo + body.index(needle)
                 add(p + len(needle) if m2.group(1) == 'after' else p, text)
-    out = src
-    for pos, _, text in sorted(ins, key=lambda t: (t[0], t[1]), reverse=True):
-        out = out[:pos] + text + out[pos:]
-    return out
 
 
 def check_ghost_only(fn, text):
